@@ -49,11 +49,20 @@ func cmdRun(args []string) {
 	fs.IntVar(&cfg.TimeoutS, "timeout", 0, "time limit in seconds")
 	params := fs.String("params", "", "harness parameters, e.g. L=3,H=2")
 	fs.IntVar(&cfg.SchedBudget, "sched", 0, "free scheduling choices explored per path (0 = all)")
+	stubs := fs.String("stubs", "", "stub models, e.g. '(*pkg.T).M=harnessFn,...'")
 	workers := fs.Int("workers", runtime.NumCPU(), "parallel workers")
 	solver := fs.String("solver", "z3", "z3 | z3-new | cvc5")
 	qto := fs.Int("qtimeout", 60000, "per-query timeout ms")
 	jsonOut := fs.Bool("json", false, "print JSON")
 	fs.Parse(args)
+	if *stubs != "" {
+		cfg.Stubs = map[string]string{}
+		for _, kv := range strings.Split(*stubs, ",") {
+			if i := strings.LastIndex(kv, "="); i > 0 {
+				cfg.Stubs[kv[:i]] = kv[i+1:]
+			}
+		}
+	}
 	if *params != "" {
 		cfg.Params = map[string]int{}
 		for _, kv := range strings.Split(*params, ",") {
